@@ -6,7 +6,8 @@
 (* linear extension of the documented partial order, each unique type once.*)
 (***************************************************************************)
 EXTENDS Naturals, Sequences, FiniteSets, TLC, Json
-CONSTANTS WTypes,        \* wrapper-carrying middleware types
+CONSTANTS NonUnique,     \* wrapper-carrying types whose class sets unique = False
+          WTypes,        \* wrapper-carrying middleware types
           PlainTypes,    \* middleware types without a wsgi_wrapper
           MaxList
 
@@ -21,6 +22,9 @@ NoDup(l) == \A i, j \in DOMAIN l : i # j => l[i] # l[j]
 \*  (sibling embedded applications are not ordered with respect to each other)
 Wrappers(outer, subs) == {t \in WTypes : (\E i \in DOMAIN outer : outer[i] = t)
                                          \/ (\E s \in DOMAIN subs : \E i \in DOMAIN subs[s] : subs[s][i] = t)}
+Listings(outer, subs, t) == Cardinality({i \in DOMAIN outer : outer[i] = t})
+                            + Cardinality({<<s, i>> \in {<<a, b>> : a \in DOMAIN subs, b \in 1..MaxList} :
+                                             i \in DOMAIN subs[s] /\ subs[s][i] = t})
 InOuter(outer, t) == \E i \in DOMAIN outer : outer[i] = t
 PosIn(l, t) == CHOOSE i \in DOMAIN l : l[i] = t
 \* number of embedded applications that list type t
@@ -37,8 +41,11 @@ Before(outer, subs, a, b) ==       \* a must be outer to b
 \* observed: sequence of wrapper types in the order they ran for one request (outermost first)
 OrderOK(outer, subs, observed) ==
     /\ {observed[i] : i \in DOMAIN observed} = Wrappers(outer, subs)
-    /\ \A i, j \in DOMAIN observed : i # j => observed[i] # observed[j]          \* each once
-    /\ \A i, j \in DOMAIN observed : i < j => ~Before(outer, subs, observed[j], observed[i])
+    \* a unique type is applied once however often it is listed; a non-unique type that is listed exactly once in the
+    \* whole tree is applied exactly once too (for a non-unique type listed several times the number is not specified)
+    /\ \A t \in Wrappers(outer, subs) :
+          (t \notin NonUnique \/ Listings(outer, subs, t) = 1) => Cardinality({i \in DOMAIN observed : observed[i] = t}) = 1
+    /\ \A i, j \in DOMAIN observed : (i < j /\ observed[i] # observed[j]) => ~Before(outer, subs, observed[j], observed[i])
 
 VARIABLES outerL, subsL
 wvars == <<outerL, subsL>>
